@@ -29,11 +29,18 @@ Definition dir_init : dir_state := mk_dir [] [] 0 0.
 Section Stream.
   Variable clamp : option nat.
   Variable cap : option nat.
+  (* does the send function accept datalen = 0?  tls_send / tls_encrypt_send refuse it
+     (`!in || !inlen`); tls13_send does not test it and emits a record whose inner plaintext is
+     just the content type: an EMPTY application record, which is a record like any other (one
+     sequence number on each side). *)
+  Variable allow_empty : bool.
 
   (* one call of tls_send / tls13_send: returns the new state and *sentlen *)
   Definition send1 (s : dir_state) (inp : list N) : res (dir_state * nat) :=
     match inp with
-    | [] => Err                              (* !in || !inlen *)
+    | [] => if allow_empty
+            then Ok (mk_dir (chan s ++ [[]]) (rbuf s) (S (sseq s)) (rseq s), 0)
+            else Err                         (* !in || !inlen *)
     | _ =>
       let n := match clamp with Some c => Nat.min c (length inp) | None => length inp end in
       match cap with
@@ -75,7 +82,8 @@ Section Stream.
     | d => Ok (mk_dir (chan s) (skipn outlen d) (sseq s) (rseq s), firstn outlen d)
     end.
 
-  Inductive op := Write (data : list N) | Read (outlen : nat).
+  (* Write = the application's write loop; SendEmpty = one send call with datalen 0 *)
+  Inductive op := Write (data : list N) | Read (outlen : nat) | SendEmpty.
 
   (* run a script; collect what each Read returned and the record sizes of each Write *)
   Fixpoint run (ops : list op) (s : dir_state) : res (dir_state * list (list N) * list (list nat)) :=
@@ -86,6 +94,15 @@ Section Stream.
       | Ok (s', ns) =>
         match run r s' with
         | Ok (s'', reads, recs) => Ok (s'', reads, ns :: recs)
+        | Err => Err | Fault => Fault
+        end
+      | Err => Err | Fault => Fault
+      end
+    | SendEmpty :: r =>
+      match send1 s [] with
+      | Ok (s', n) =>
+        match run r s' with
+        | Ok (s'', reads, recs) => Ok (s'', reads, [n] :: recs)
         | Err => Err | Fault => Fault
         end
       | Err => Err | Fault => Fault
@@ -106,13 +123,14 @@ Section Stream.
     | [] => []
     | Write d :: r => d ++ written r
     | Read _ :: r => written r
+    | SendEmpty :: r => written r
     end.
 End Stream.
 
 (* the two instances *)
 Definition max_plain : nat := N.to_nat 16384.
 Definition cap13 : nat := N.to_nat 18415.
-Definition run12 := run (Some max_plain) None.
-Definition run13 := run (Some max_plain) None.
+Definition run12 := run (Some max_plain) None false.
+Definition run13 := run (Some max_plain) None true.
 (* tls13_send before commit c5b289c (no clamp), kept only for the Example in Tls/StreamProofs.v *)
-Definition run13_before_c5b289c := run None (Some cap13).
+Definition run13_before_c5b289c := run None (Some cap13) true.
